@@ -265,6 +265,34 @@ def spellings(fi: int, npos: int, omit_mask: int) -> bool:
     with NoTracing():
         return spell(fi, npos, omit_mask)
 
+def _make(default):
+    def resize(name: str, width: int = default) -> int:
+        return width
+    return resize
+
+def redefined(order: int, d1: int, d2: int) -> bool:
+    """
+    pre: 0 <= order <= 1 and 0 <= d1 <= 2 and 0 <= d2 <= 2
+    post: _
+    """
+    # two function objects with the same module and qualified name (a reloaded module, a factory) but their own defaults: the
+    # omitted default of each call is the default of the function that is being called
+    global LAST_DETAIL
+    order = pick(order, 0, 1); d1 = [100, 250, 7][pick(d1, 0, 2)]; d2 = [100, 250, 7][pick(d2, 0, 2)]
+    with NoTracing():
+        fns = [(_make(d1), d1), (_make(d2), d2)]
+        if order:
+            fns.reverse()
+        for fn, d in fns:
+            omitted = Arguments.from_call(fn, "a")
+            spelled = Arguments.from_call(fn, "a", width=d)
+            keyword = Arguments.from_call(fn, name="a")
+            LAST_DETAIL = {"default_of_called_function": d, "bound": dict(omitted.kwargs), "why": "C15:omitted-default-taken-from-another-function-object"}
+            if dict(omitted.kwargs) != {"name": "a", "width": d} or dict(keyword.kwargs) != dict(spelled.kwargs) or dict(omitted.kwargs) != dict(spelled.kwargs):
+                return False
+        LAST_DETAIL = None
+        return True
+
 def spell_twin(fi: int, npos: int) -> bool:
     """
     pre: 0 <= fi <= 3 and 0 <= npos <= 4
@@ -387,10 +415,10 @@ def trip(ser, kind, min_size, wrappers, leaf_i):
 
 def values___S_____K_____E__(w1: int, w2: int, w3: int, leaf_i: int) -> bool:
     """
-    pre: 0 <= w1 <= 4 and 0 <= w2 <= 4 and 0 <= w3 <= 4 and 0 <= leaf_i <= 12
+    pre: 0 <= w1 <= 4 and 0 <= w2 <= 4 and 0 <= w3 <= 4 and 0 <= leaf_i <= 14
     post: _
     """
-    w1 = pick(w1, 0, 4); w2 = pick(w2, 0, 4); w3 = pick(w3, 0, 4); leaf_i = pick(leaf_i, 0, 12)
+    w1 = pick(w1, 0, 4); w2 = pick(w2, 0, 4); w3 = pick(w3, 0, 4); leaf_i = pick(leaf_i, 0, 14)
     with NoTracing():
         return trip(SERIALIZERS[__S__], ["mem", "sqlite"][__K__], [10**6, 0][__E__], [w1, w2, w3], leaf_i)
 '''
@@ -398,17 +426,17 @@ def values___S_____K_____E__(w1: int, w2: int, w3: int, leaf_i: int) -> bool:
 SHAPEX = r'''
 def values_twin(w1: int, leaf_i: int) -> bool:
     """
-    pre: 0 <= w1 <= 4 and 0 <= leaf_i <= 12
+    pre: 0 <= w1 <= 4 and 0 <= leaf_i <= 14
     post: _
     """
-    w1 = pick(w1, 0, 4); leaf_i = pick(leaf_i, 0, 12)
+    w1 = pick(w1, 0, 4); leaf_i = pick(leaf_i, 0, 14)
     with NoTracing():
         trip("JsonSerializer", "mem", 0, [w1, 0, 0], leaf_i)
     return False
 
 def values_canary(w1: int, w2: int, leaf_i: int) -> bool:
     """
-    pre: 0 <= w1 <= 4 and 0 <= w2 <= 4 and 0 <= leaf_i <= 12
+    pre: 0 <= w1 <= 4 and 0 <= w2 <= 4 and 0 <= leaf_i <= 14
     post: _
     """
     # canary: a reconstruction that does not descend into lists nested in lists must be refuted
@@ -419,7 +447,7 @@ def values_canary(w1: int, w2: int, leaf_i: int) -> bool:
             return [orig(x) if isinstance(x, dict) else x for x in data]
         return orig(data)
     js._reconstruct_from_json = shallow
-    w1 = pick(w1, 0, 4); w2 = pick(w2, 0, 4); leaf_i = pick(leaf_i, 0, 12)
+    w1 = pick(w1, 0, 4); w2 = pick(w2, 0, 4); leaf_i = pick(leaf_i, 0, 14)
     try:
         with NoTracing():
             return trip("JsonSerializer", "mem", 10**6, [w1, w2, 0], leaf_i)
@@ -461,11 +489,11 @@ def run(ctx: Ctx) -> None:
     vconds += [Cond("values_twin", "refute", 60), Cond("values_canary", "refute", 300)]
     ctx.ch_batch("c15values", vsrc, vconds)
     ctx.bounds["values"] = ("value grammar: up to 3 nested wrappers from {[x], [x, 7], {'k': x}, {'k': x, 'n': 1}} around a leaf from {int, str, float, None, bool, Enum, IntEnum, StrEnum, "
-                            "builtin exception, client exception, JsonSerializable object, [], {}}; JsonSerializer / PickleSerializer / JsonPickleSerializer; inline and externalised; both backends; "
+                            "builtin exception, client exception (each with and without arguments), JsonSerializable object, [], {}}; JsonSerializer / PickleSerializer / JsonPickleSerializer; inline and externalised; both backends; "
                             "paths: serializer alone, client data store read by another process, task argument loaded by a worker, result read by the client")
     ctx.functions_encoded += ["JsonSerializer.serialize/deserialize (_preprocess_for_json, DefaultJSONEncoder.default, _reconstruct_from_json), PickleSerializer, JsonPickleSerializer",
                               "BaseClientDataStore.serialize/resolve, serialize_arguments/deserialize_arguments; state backend upsert/get_invocation, set_result/get_result"]
-    ctx.ch_batch("c15spell", SPELL, [Cond("spellings", "confirm", 600), Cond("spell_twin", "refute", 60)])
+    ctx.ch_batch("c15spell", SPELL, [Cond("spellings", "confirm", 600), Cond("redefined", "confirm", 300, keyfn=_key_from_replay), Cond("spell_twin", "refute", 60)])
     budget = 900 if thorough else 120
     ctx.ch_batch("c15hunt", HUNT, [Cond("args_id_injective", "hunt", budget), Cond("args_id_order", "hunt", budget)])
     ctx.functions_encoded += ["BaseClientDataStore.serialize/_maybe_store/resolve/_resolve_reference/_cache_deserialized/purge", "Mem/SQLite client data store _store/_retrieve/_purge",
